@@ -134,18 +134,23 @@ theorem consume_prefix (style : CommentStyle) (ls : List Char) :
         exact ⟨rem, by simp [← hrem]⟩
       · exact ⟨raw :: rest, by simp⟩
 
-theorem blockGroup_prefix (fe : Nat) :
-    ∀ (raws : List (List Char)) (off : Nat) (hbl : Bool),
-      ∃ rem, raws = (blockGroup fe raws off hbl).2 ++ rem := by
+theorem blockGroup_prefix (ol : Nat) :
+    ∀ (raws : List (List Char)) (first : Bool) (count : Nat) (hbl : Bool),
+      ∃ rem, raws = (blockGroup ol raws first count hbl).2 ++ rem := by
   intro raws
   induction raws with
-  | nil => intro off hbl; exact ⟨[], by simp [blockGroup]⟩
+  | nil => intro first count hbl; exact ⟨[], by simp [blockGroup]⟩
   | cons raw rest ih =>
-    intro off hbl
+    intro first count hbl
     simp only [blockGroup]
+    generalize (if first = true then List.drop ol (trimStart (stripLineEnding raw))
+      else trimStart (stripLineEnding raw)) = tl
     split
-    · exact ⟨rest, by simp⟩
-    · obtain ⟨rem, hrem⟩ := ih (off + raw.length) (hbl || isBareLine raw)
+    · split
+      · exact ⟨rest, by simp⟩
+      · obtain ⟨rem, hrem⟩ := ih false (count - 1) (hbl || isBareLine raw)
+        exact ⟨rem, by simp [← hrem]⟩
+    · obtain ⟨rem, hrem⟩ := ih false count (hbl || isBareLine raw)
       exact ⟨rem, by simp [← hrem]⟩
 
 /-- The first group is a prefix of the comment. -/
@@ -166,7 +171,7 @@ theorem firstGroup_prefix (orig : List Char) :
   · exact key _ (consume_prefix _ _ _)
   · exact key _ (consume_prefix _ _ _)
   · exact key _ (consume_prefix _ _ _)
-  · exact key _ (blockGroup_prefix _ _ _ _)
+  · exact key _ (blockGroup_prefix _ _ _ _ _)
 
 /-! ### `trim_left_preserve_layout` keeps the content -/
 
